@@ -131,7 +131,12 @@ class Celestial(Dynamics, metaclass=ABCMeta):
         """
         # Save original shape of the input state
         simultaneous_impulses = self._simultaneousImpulses(t_events, events)
-        for event_index, event in enumerate(events):
+        # [NOTE]: A thrust that ends where another begins (or where an impulse takes place) is switched off first.
+        ordered_events = sorted(
+            enumerate(events),
+            key=lambda item: not isinstance(item[1], ScheduledFiniteThrustEnd),
+        )
+        for event_index, event in ordered_events:
             if t_events[event_index].size > 0 or event_index in simultaneous_impulses:
                 current_time = (
                     t_events[event_index][-1]
@@ -168,7 +173,7 @@ class Celestial(Dynamics, metaclass=ABCMeta):
         t_events: ndarray,
         events: list[ScheduledEventType],
     ) -> dict[int, float]:
-        r"""Find scheduled impulses that take place at the same time as an impulse that stopped integration.
+        r"""Find scheduled events that take place at the same time as a scheduled event that stopped integration.
 
         ``solve_ivp`` reports only the first of several terminal events that occur at the same time.
 
@@ -177,20 +182,29 @@ class Celestial(Dynamics, metaclass=ABCMeta):
             events (``list``): event functions that are ``Callable`` of the form :math:`g(t, y) = 0`.
 
         Returns:
-            ``dict``: index into `events` of each such unreported impulse, mapped to the time it takes place.
+            ``dict``: index into `events` of each such unreported event, mapped to the time it takes place.
         """
         reported = {
-            event.time: t_events[event_index][-1]
+            Celestial._scheduledTime(event): t_events[event_index][-1]
             for event_index, event in enumerate(events)
-            if isinstance(event, ScheduledImpulse) and t_events[event_index].size > 0
+            if Celestial._scheduledTime(event) is not None and t_events[event_index].size > 0
         }
         return {
-            event_index: reported[event.time]
+            event_index: reported[Celestial._scheduledTime(event)]
             for event_index, event in enumerate(events)
-            if isinstance(event, ScheduledImpulse)
-            and t_events[event_index].size == 0
-            and event.time in reported
+            if t_events[event_index].size == 0 and Celestial._scheduledTime(event) in reported
         }
+
+    @staticmethod
+    def _scheduledTime(event: ScheduledEventType) -> float | None:
+        r"""Time at which a scheduled event interrupts integration: an impulse, or the start or the end of a finite thrust."""
+        if isinstance(event, ScheduledImpulse):
+            return event.time
+        if isinstance(event, ScheduledFiniteThrustEnd):
+            return event.thrust_event.end_time
+        if isinstance(event, ScheduledFiniteThrust):
+            return event.start_time
+        return None
 
     @classmethod
     def _dropAppliedImpulses(
